@@ -57,31 +57,62 @@ def lt_draw_rate(ctx, cond, value, draw_ty, rate_pred):
     return None
 
 
+def with_rate_bodies(ctx, f):
+    """the per-gene computation of a WithRate::mutate impl, as (body paths, conditions of each, value of each, is-the-gene test):
+    `genome.into_iter().map(|bit| ..).collect()` (the closure's paths) or the explicit loop
+    `for bit in genome { out.push(..) } Ok(out)` (one push per element taken from genome.into_iter(), in order); None when neither"""
+    from . import ckit as K
+    ps = return_paths(ctx.paths(f))
+    b = {}
+    if len(ps) == 1 and match(ps[0].ret, Agg("Result::Ok", Call("Iterator::collect", Call("Iterator::map", Call("IntoIterator::into_iter", Param(2), nargs=1), Bind("clo"), nargs=2), nargs=1)), b) \
+            and len(ps[0].calls()) == 3:
+        cps = [q for q in closure_paths(ctx, b["clo"]) if q.end != "unreachable"]
+        return [(q, list(q.conds), q.ret, (lambda e: e[:2] == ("cparam", 2))) for q in cps]
+    paths = K.live(ctx.cpaths(f))
+    is_nx = lambda c: callee_is(c, "Iterator::next") and match(c[3][0], Through(Call("IntoIterator::into_iter", Param(2), nargs=1)))
+    is_out = lambda e: callee_is(K.strip(e, calls=()), "Vec::with_capacity", "Vec::new")
+    bodies, done = [], 0
+    for p in paths:
+        nx = [c for c in p.calls() if is_nx(c)]
+        if len(nx) != 1 or len([c for c in p.calls() if callee_is(c, "Iterator::next")]) != 1:
+            return None
+        grow = K.calls_of(p, "Vec::push", "Extend::extend", "Vec::insert", "Vec::extend_from_slice", "Vec::append")
+        if K.discr_is(p, lambda o: o == nx[0], 0):
+            kind, pay = K.outcome(p)
+            if not (kind == "ok" and pay is not None and is_out(pay) and not grow):
+                return None
+            done += 1
+            continue
+        if not (p.end.startswith("loop:") and len(grow) == 1 and callee_is(grow[0], "Vec::push") and is_out(grow[0][3][0])):
+            return None
+        gene = ("field", nx[0], 0, "Some")
+        bodies.append((p, [c for c in p.conds if not (c[0][0] == "discr" and c[0][1] == nx[0])], grow[0][3][1], (lambda e, gene=gene: K.strip(e, calls=()) == gene)))
+    return bodies if done == 1 and bodies else None
+
+
 def check_with_rate(ctx, rule_shape, rule_rate):
     for ty in ("std::vec::Vec<T>", "T"):
         f = ctx.fn(WR + M % ty)
         ps = return_paths(ctx.paths(f))
-        b = {}
-        shape = len(ps) == 1 and match(ps[0].ret, Agg("Result::Ok", Call("Iterator::collect", Call("Iterator::map", Call("IntoIterator::into_iter", Param(2), nargs=1), Bind("clo"), nargs=2), nargs=1)), b) \
-            and len(ps[0].calls()) == 3
+        bodies = with_rate_bodies(ctx, f)
+        shape = bodies is not None
         if rule_shape:
-            ctx.check(shape, rule_shape, "WithRate<%s>/into_iter.map.collect-only" % ty, short(ps[0].ret, 6) if ps else "-", f.at(),
+            ctx.check(shape, rule_shape, "WithRate<%s>/into_iter.map.collect-only" % ty, "per-gene computation over genome.into_iter(), collected in order", f.at(),
                       bad_detail="expected Ok(collect(map(into_iter(genome), closure))) with no length-changing adaptor; extracted " + "; ".join(short(p.ret, 8) for p in ps))
         if not shape:
             if rule_rate:
                 ctx.bad(rule_rate, "WithRate<%s>/closure-not-found" % ty, "pipeline shape not recognised", f.at())
             continue
-        cps = [q for q in closure_paths(ctx, b["clo"]) if q.end != "unreachable"]
         flip = keep = 0
-        good = len(cps) == 2
+        good = len(bodies) == 2
         draws = set()
-        for q in cps:
+        for q, conds, val, is_gene in bodies:
             r = None
-            for c in q.conds:
+            for c in conds:
                 r = lt_draw_rate(ctx, c[0], c[1], "f32", lambda e: self_field(e, "mutation_rate"))
                 if r:
                     break
-            if not r or len(q.conds) != 1:
+            if not r or len(conds) != 1:
                 good = False
                 continue
             is_flip, draw = r
@@ -89,20 +120,70 @@ def check_with_rate(ctx, rule_shape, rule_rate):
             good = good and rng_passthrough(draw[3][0], 3) and targ_is(ctx, draw, "f32") and len([c for c in q.calls() if callee_is(c, "Rng::random", "Rng::random_bool", "Rng::random_range")]) == 1
             if is_flip:
                 flip += 1
-                good = good and match(q.ret, Call("Not::not", CParam(2), nargs=1))
+                good = good and callee_is(val, "Not::not") and len(val[3]) == 1 and is_gene(val[3][0])
             else:
                 keep += 1
-                good = good and q.ret[:2] == ("cparam", 2)
+                good = good and is_gene(val)
         good = good and flip == 1 and keep == 1 and len(draws) == 1
         if rule_rate:
-            ctx.check(good, rule_rate, "WithRate<%s>/flip-iff-draw<mutation_rate" % ty, "; ".join("%s -> %s" % (cond_str(q), short(q.ret)) for q in cps), f.at(),
-                      bad_detail="per gene: exactly one random::<f32>() draw d, result !bit iff d < self.mutation_rate else bit; extracted " + "; ".join("[%s] -> %s" % (cond_str(q), short(q.ret, 5)) for q in cps))
+            ctx.check(good, rule_rate, "WithRate<%s>/flip-iff-draw<mutation_rate" % ty, "; ".join("%s -> %s" % (cond_str(q), short(v)) for q, _, v, _ in bodies), f.at(),
+                      bad_detail="per gene: exactly one random::<f32>() draw d, result !bit iff d < self.mutation_rate else bit; extracted " + "; ".join("[%s] -> %s" % (cond_str(q), short(v, 5)) for q, _, v, _ in bodies))
         if rule_shape:
-            ok2 = all((match(q.ret, Call("Not::not", CParam(2), nargs=1)) or q.ret[:2] == ("cparam", 2)) for q in cps) and flip == 1 and keep == 1
-            ctx.check(ok2, rule_shape, "WithRate<%s>/gene-flipped-or-kept-in-place" % ty, "closure returns !bit on one branch and bit on the other", f.at())
+            ok2 = all(((callee_is(v, "Not::not") and len(v[3]) == 1 and g(v[3][0])) or g(v)) for _, _, v, g in bodies) and flip == 1 and keep == 1
+            ctx.check(ok2, rule_shape, "WithRate<%s>/gene-flipped-or-kept-in-place" % ty, "the body yields !bit on one branch and bit on the other", f.at())
 
 
 def check_one_over_length(ctx, rule_fwd, rule_rate):
+    """stated over canonical outcomes: size not representable as f32 -> the conversion error without mutating; otherwise exactly
+    one WithRate::new(1.0 / to_f32(size)).mutate(genome, rng) whose Ok is returned (its error type is Infallible)"""
+    from . import ckit as K
+    for ty, sizefn in (("std::vec::Vec<T>", "Vec::len"), ("T", "Linear::size")):
+        f = ctx.fn(WO + M % ty)
+        paths = K.live(ctx.cpaths(f))
+        good = bool(paths)
+        seen = set()
+        detail = "-"
+        for p in paths:
+            conv = [c for c in p.calls() if callee_is(c, "ToPrimitive::to_f32")]
+            mut = [c for c in p.calls() if callee_is(c, "Mutator::mutate")]
+            okc = len(conv) == 1 and match(conv[0], Call("ToPrimitive::to_f32", Through(Call(sizefn, Through(Param(2)), nargs=1)), nargs=1))
+            kind, pay = K.outcome(p)
+            if not okc:
+                good = False
+                continue
+            if K.discr_is(p, lambda o: o == conv[0], 0):
+                e = K.conv_free(pay) if pay is not None else None
+                good = good and kind == "err" and not mut and e is not None and e[0] == "agg" and path_ends(e[2], "GenomeSizeConversionError::GenomeSizeConversionError")
+                seen.add("unrepresentable")
+                continue
+            rate_ok = len(mut) == 1 and len(mut[0][3]) == 3 and K.strip(mut[0][3][1], calls=()) == ("param", 2) and rng_passthrough(mut[0][3][2], 3)
+            if rate_ok:
+                recv = K.strip(mut[0][3][0], calls=())
+                rate = recv[3][0] if (callee_is(recv, "WithRate::new") and len(recv[3]) == 1) else (recv[3][0] if (recv[0] == "agg" and path_ends(recv[2], "WithRate::WithRate") and len(recv[3]) == 1) else None)
+                rate_ok = rate is not None and match(rate, BinOp("Div", lambda e: e[0] == "const" and e[3] in ("1.0", 1.0, "1"), lambda e: K.strip(e, calls=(), casts=False) == ("field", conv[0], 0, "Some")))
+            if not rate_ok:
+                good = False
+                detail = short(p.ret, 7) if p.ret is not None else p.end
+                continue
+            if p.end == "return":
+                good = good and kind == "ok" and K.strip(pay, calls=()) == ("field", mut[0], 0, "Ok") and K.discr_is(p, lambda o: o == mut[0], 0)
+                detail = short(p.ret, 6)
+                seen.add("mutated")
+            else:
+                good = good and K.discr_is(p, lambda o: o == mut[0], 1)      # the Infallible error arm: unreachable!() / empty match
+        good = good and seen == {"unrepresentable", "mutated"}
+        if rule_rate:
+            ctx.check(good, rule_rate, "WithOneOverLength<%s>/rate=1.0/size" % ty, detail[:300], f.at(),
+                      bad_detail="expected WithRate::new(1.0 / to_f32(size(genome))?).mutate(genome, rng); extracted " + "; ".join(short(p.ret, 9) for p in paths if p.ret is not None))
+        if rule_fwd:
+            ctx.check(good, rule_fwd, "WithOneOverLength<%s>/forwards-same-genome-and-rng-to-WithRate" % ty, detail[:200], f.at())
+    f = ctx.fn("ec_linear::mutator::with_rate::WithRate::new")
+    ps = return_paths(ctx.paths(f))
+    if rule_rate:
+        ctx.check(len(ps) == 1 and match(ps[0].ret, Agg("WithRate::WithRate", Param(1))), rule_rate, "WithRate::new-stores-rate", short(ps[0].ret), f.at())
+
+
+def _check_one_over_length_legacy(ctx, rule_fwd, rule_rate):
     for ty, sizefn in (("std::vec::Vec<T>", "Vec::len"), ("T", "Linear::size")):
         f = ctx.fn(WO + M % ty)
         ps = return_paths(ctx.paths(f))
@@ -177,7 +258,198 @@ def umad_empty_branch_explicit(ctx, emp):
     return seen == {True: True, False: True}
 
 
+def seq_items(e, K):
+    """the elements an iterator-valued expression yields, in order, as a list of element expressions, or None when the shape is
+    not one of: array literal, into_iter(x), chain(a, b), flatten(x), Option aggregate (Some{v} yields v, None yields nothing)"""
+    e = K.strip(e, calls=("Clone::clone",)) if isinstance(e, tuple) else e
+    if not isinstance(e, tuple):
+        return None
+    if e[0] == "agg" and e[1] == "array":
+        return list(e[3])
+    if e[0] == "agg" and e[1] == "adt" and path_ends(e[2], "Option::Some") and len(e[3]) == 1:
+        return [e[3][0]]
+    if e[0] == "agg" and e[1] == "adt" and path_ends(e[2], "Option::None"):
+        return []
+    if callee_is(e, "IntoIterator::into_iter", "Iterator::into_iter") and len(e[3]) == 1:
+        return seq_items(e[3][0], K)
+    if callee_is(e, "Iterator::chain") and len(e[3]) == 2:
+        a, b = seq_items(e[3][0], K), seq_items(e[3][1], K)
+        return None if a is None or b is None else a + b
+    if callee_is(e, "Iterator::flatten") and len(e[3]) == 1:
+        inner = seq_items(e[3][0], K)
+        return flatten_items(inner, K)
+    return None
+
+
+def flatten_items(items, K):
+    """one level of flattening: every element must itself be a sequence seq_items understands"""
+    if items is None:
+        return None
+    out = []
+    for x in items:
+        sub = seq_items(x, K)
+        if sub is None:
+            return None
+        out += sub
+    return out
+
+
+def umad_semantics(ctx):
+    """What Umad::mutate does, read from its canonical paths whatever the spelling: the pipeline collected (main pass over
+    genome.into_iter() through flat_map, or the empty-parent branch), per parent gene the draws and the genes yielded for every
+    outcome of the draws.  Returns a dict of verdicts and a detail string."""
+    from . import ckit as K
+    f = ctx.fn(UM + M % "G")
+    V = {"f": f, "shape": True, "order": True, "wiring": True, "empty": True, "empty_draw": True, "disabled": False, "detail": [], "n_main": 0, "n_empty": 0}
+    paths = K.live(ctx.cpaths(f))
+    rate = lambda name: (lambda e: self_field(K.strip(e, calls=()), name) or self_field(e, name))
+    is_new = lambda e: (callee_is(K.strip(e, calls=()), "Umad::new_gene") and len(K.strip(e, calls=())[3]) == 2 and rng_passthrough(K.strip(e, calls=())[3][1], 3)) or \
+        (callee_is(K.strip(e, calls=()), "Distribution::sample") and derives_from_self(K.strip(e, calls=())[3][0], field="gene_generator") and rng_passthrough(K.strip(e, calls=())[3][1], 3))
+    def truth(q, call):
+        for c in q.conds:
+            if c[0] == call:
+                return K.truth_of(c[1])
+            if c[0][0] == "unop" and c[0][1] == "Not" and c[0][2] == call:
+                return not K.truth_of(c[1])
+        return None
+    size0 = lambda p: [K.truth_of(c[1]) for c in p.conds if match(c[0], BinOp("Eq", Call("Linear::size", Through(Param(2)), nargs=1), Const(0), commutative=True))]
+    ear = lambda p: [c[1] for c in p.conds if c[0][0] == "discr" and self_field(c[0][1], "empty_addition_rate")]
+    clos = []
+    for p in paths:
+        kind, pay = K.outcome(p)
+        x = K.strip(pay, calls=()) if pay is not None else None
+        if kind != "ok" or not callee_is(x, "Iterator::collect") or len(x[3]) != 1:
+            V["shape"] = False
+            V["detail"].append("not Ok(collect(..)): " + short(p.ret, 5))
+            continue
+        src = K.strip(x[3][0], calls=())
+        nfl = 0
+        while callee_is(src, "Iterator::flatten") and len(src[3]) == 1:
+            nfl += 1
+            src = K.strip(src[3][0], calls=())
+        s0, er = size0(p), ear(p)
+        if callee_is(src, "Iterator::flat_map") and len(src[3]) == 2 and match(src[3][0], Through(Call("IntoIterator::into_iter", Param(2), nargs=1))) and \
+                src[3][1][0] == "agg" and src[3][1][1] == "closure":
+            V["n_main"] += 1
+            clos.append((src[3][1], nfl))
+            # taken unless (size == 0 and the empty rate is configured)
+            if not ((s0 and s0[0] is False) or (er and er[0] != 1)):
+                V["shape"] = False
+                V["detail"].append("main pass on a path that has not excluded `empty parent with an empty-addition rate`: [%s]" % cond_str(p)[:160])
+            if er and er[0] != 1:
+                V["disabled"] = True
+            extra = [c for c in p.calls() if not callee_is(c, "IntoIterator::into_iter", "Iterator::flat_map", "Iterator::flatten", "Iterator::collect", "Linear::size", "PartialEq::eq")]
+            if extra:
+                V["shape"] = False
+                V["detail"].append("other calls on the main path: " + ", ".join(short(c, 3) for c in extra))
+            continue
+        # empty-parent branch
+        V["n_empty"] += 1
+        items = seq_items(src, K)
+        for _ in range(nfl):
+            items = flatten_items(items, K)
+        draws = [c for c in p.calls() if callee_is(c, "Rng::random_bool")]
+        okg = bool(s0) and s0[0] is True and bool(er) and er[0] == 1
+        okd = len(draws) == 1 and rng_passthrough(draws[0][3][0], 3) and match(draws[0][3][1], Through(Field(Through(Field(Through(Param(1)), "empty_addition_rate")), 0, "Some")))
+        t = truth(p, draws[0]) if okd else None
+        news = [c for c in p.calls() if callee_is(c, "Umad::new_gene", "Distribution::sample")]
+        oki = items is not None and ((t is True and len(items) == 1 and is_new(items[0]) and len(news) == 1) or (t is False and items == [] and not news))
+        if not (okg and oki):
+            V["empty"] = False
+            V["detail"].append("empty branch [%s] -> %s" % (cond_str(p)[:200], short(p.ret, 7)))
+        if not (okd and t is not None):
+            V["empty_draw"] = False
+    if V["n_main"] == 0 or len({repr(c[0][2]) + str(c[1]) for c in clos}) != 1:
+        V["shape"] = False
+        V["detail"].append("%d main-pass path(s), %d distinct per-gene closures" % (V["n_main"], len({c[0][2] for c in clos})))
+        V["order"] = V["wiring"] = False
+        return V
+    clo, nfl = clos[0]
+    cps = [q for q in (closure_paths(ctx, clo, canon=True) or []) if q.end != "unreachable"]
+    gene = lambda e: K.strip(e, calls=())[:2] == ("cparam", 2)
+    # which deletion draw decides about the parent's gene: the one also made when nothing is added
+    table = {}
+    d_sites = set()
+    rows = []
+    for q in cps:
+        if q.end != "return":
+            V["order"] = V["wiring"] = False
+            continue
+        ds = [c for c in q.calls() if callee_is(c, "Rng::random_bool")]
+        if not all(rng_passthrough(d[3][0], 3) for d in ds):
+            V["wiring"] = False
+        adds = [d for d in ds if rate("addition_rate")(d[3][1])]
+        dels = [d for d in ds if rate("deletion_rate")(d[3][1])]
+        if len(adds) != 1 or len(adds) + len(dels) != len(ds):
+            V["wiring"] = False
+            V["detail"].append("draws on a per-gene path: " + ", ".join(short(d, 3) for d in ds))
+            continue
+        a = truth(q, adds[0])
+        rows.append((q, adds[0], a, dels))
+        if a is False and len(dels) == 1:
+            d_sites.add(dels[0][4])
+    if len(d_sites) != 1:
+        V["wiring"] = False
+    d_site = next(iter(d_sites)) if len(d_sites) == 1 else None
+    for q, add, a, dels in rows:
+        items = seq_items(q.ret, K)
+        for _ in range(nfl):
+            items = flatten_items(items, K)
+        dd = [x for x in dels if x[4] == d_site]
+        dn = [x for x in dels if x[4] != d_site]
+        if a is None or len(dd) != 1 or (a and len(dn) != 1) or ((not a) and dn):
+            V["wiring"] = False
+            V["detail"].append("per-gene path [%s]: %d deletion draw(s) for the parent gene, %d for the new one (add=%s)" % (cond_str(q)[:120], len(dd), len(dn), a))
+            continue
+        d = truth(q, dd[0])
+        n = truth(q, dn[0]) if a else None
+        if d is None or (a and n is None):
+            V["wiring"] = False
+            continue
+        want_old, want_new = (not d), bool(a and not n)
+        news = [c for c in q.calls() if callee_is(c, "Umad::new_gene", "Distribution::sample")]
+        if items is None:
+            V["order"] = False
+            V["detail"].append("per-gene value not a recognised sequence: " + short(q.ret, 6))
+            continue
+        got_old = [i for i, x in enumerate(items) if gene(x)]
+        got_new = [i for i, x in enumerate(items) if is_new(x)]
+        if len(got_old) + len(got_new) != len(items) or len(got_old) > 1 or len(got_new) > 1 or (got_old and got_new and got_old[0] > got_new[0]):
+            V["order"] = False
+            V["detail"].append("per-gene sequence " + ", ".join(short(x, 3) for x in items))
+        if bool(got_old) != want_old or bool(got_new) != want_new or len(news) != (1 if want_new else 0):
+            V["wiring"] = False
+            V["detail"].append("add=%s del=%s del_new=%s yields [%s]" % (a, d, n, ", ".join(short(x, 3) for x in items)))
+        table[(a, d, n)] = (bool(got_old), bool(got_new))
+    want = {(False, False, None), (False, True, None), (True, False, False), (True, False, True), (True, True, False), (True, True, True)}
+    if set(table) != want:
+        V["wiring"] = False
+        V["detail"].append("outcomes of the draws covered: %s" % sorted(map(str, table)))
+    V["table"] = table
+    return V
+
+
 def check_umad_rates(ctx, rule):
+    from . import ckit as K
+    def canonical(c):
+        V = umad_semantics(c)
+        at = V["f"].at()
+        c.check(V["shape"] and V["wiring"] and V["order"], rule, "Umad/add,del,del_new-wiring", "every outcome of (add, del, del_new) yields the genes the rates prescribe: %s" % {str(k): v for k, v in V.get("table", {}).items()}, at,
+                bad_detail="; ".join(V["detail"])[:600])
+        c.check(V["empty"] and V["empty_draw"] and V["n_empty"] >= 1, rule, "Umad/empty-parent-draws-random_bool(empty_addition_rate)", "one draw with the empty-addition rate decides about the single new gene", at,
+                bad_detail="; ".join(V["detail"])[:600])
+    K.either(ctx, lambda c: _check_umad_rates_legacy(c, rule, ctors=False), canonical)
+    # constructors
+    from .ctors import check_ctor
+    UF = ("addition_rate", "deletion_rate", "empty_addition_rate", "gene_generator")
+    for fn, pat in (("new", Agg("Umad::Umad", Param(1), Param(2), Agg("Option::Some", Param(1)), Param(3))),
+                    ("new_with_empty_rate", Agg("Umad::Umad", Param(1), Param(3), Agg("Option::Some", Param(2)), Param(4))),
+                    ("new_without_empty", Agg("Umad::Umad", Param(1), Param(2), Agg("Option::None"), Param(3)))):
+        check_ctor(ctx, rule, "Umad::%s-stores-parameters-in-like-named-fields" % fn, "ec_linear::mutator::umad::Umad::<GeneGenerator>::" + fn, pat,
+                   fields=UF, adt="ec_linear::mutator::umad::Umad")
+
+
+def _check_umad_rates_legacy(ctx, rule, ctors=True):
     f, main, empty = umad_closure(ctx)
     at = f.at()
     if not main:
@@ -248,7 +520,8 @@ def check_umad_rates(ctx, rule):
     if goode is not None:
       ctx.check(goode, rule, "Umad/empty-parent-draws-random_bool(empty_addition_rate)", short(emp[0].ret, 6) if emp else "-", at,
               bad_detail="empty-genome branch must be: size == 0 && empty_addition_rate == Some(r) -> random_bool(r).then(new_gene).into_iter().collect(); extracted " + "; ".join("[%s] -> %s" % (cond_str(p)[:200], short(p.ret, 7)) for p in empty))
-    # constructors
+    if not ctors:
+        return
     from .ctors import check_ctor
     UF = ("addition_rate", "deletion_rate", "empty_addition_rate", "gene_generator")
     for fn, pat in (("new", Agg("Umad::Umad", Param(1), Param(2), Agg("Option::Some", Param(1)), Param(3))),
